@@ -40,11 +40,13 @@ class Loops:
             return r
         if k == 2:
             b = V.by(t)
+            it.assume_axiom(vals.wf_known(it.refine(t)))
             r = it.fresh('byts', vals.SeqVal)
             it.assume_axiom(z3.Length(r) == z3.Length(b))
             it.assume_axiom(z3.ForAll([i], z3.Implies(z3.And(0 <= i, i < z3.Length(b)), r[i] == V.IntV(b[i]))))
             return r
         if k == 3:
+            it.assume_axiom(vals.wf_known(it.refine(t)))     # A4: dict bookkeeping is consistent
             return simp(V.dkeys(t))
         if k == 4:
             # iteration order of a set is unspecified: some sequence of its (distinct) elements
@@ -107,7 +109,9 @@ class Loops:
             it.assume_axiom(z3.ForAll([i], z3.Implies(z3.And(0 <= i, i < z3.Length(r)), r[i] == V.IntV(lo + i))))
             return r
         if v.kind == 'dictitems':
-            d = v.data.t
+            d = it.refine(v.data.t)
+            if vals._c(d) == 'DictV':
+                it.assume_axiom(vals.wf_known(d))
             keys = V.dkeys(d)
             ln = simp(z3.Length(keys))
             if z3.is_int_value(ln):
@@ -160,7 +164,9 @@ class Loops:
                 ln, f = self.iter_view(it, v.data[0])
                 return ln, (lambda i, f=f: V.TupleV(vals.valseq([V.IntV(i), f(i)])))
             if v.kind == 'dictitems':
-                d = v.data.t
+                d = it.refine(v.data.t)
+                if vals._c(d) == 'DictV':
+                    it.assume_axiom(vals.wf_known(d))
                 keys = V.dkeys(d)
                 return simp(z3.Length(keys)), (lambda i: V.TupleV(vals.valseq([keys[i], z3.Select(V.dmap(d), V.s(keys[i]))])))
             if v.kind == 'dictvalues':
@@ -247,7 +253,7 @@ class Loops:
                     if any(it.heap.get(f) is not heap0.get(f) for f in set(it.heap) | set(heap0)
                            if not (f in it.heap and f not in heap0)):
                         raise Unsupported('heap modified inside a comprehension / quantified body')
-                    if any(it.ghost.get(g) is not ghost0.get(g) for g in set(it.ghost) | set(ghost0)):
+                    if any(it.ghost.get(g) is not ghost0.get(g) for g in set(it.ghost) | set(ghost0) if g in ghost0):
                         raise Unsupported('ghost state modified inside a comprehension / quantified body')
                     outcomes.append((kind, v, list(it.pc[npc:]), list(it.fresh_log[nfresh:])))
                     kept_obligations.extend(it.obligations[snap[5]:])
@@ -309,7 +315,7 @@ class Loops:
         saved = dict(it.env)
 
         def elem(x):
-            if ety and not ety.startswith('tuple|'):
+            if ety:
                 self.world.element_kind(it, x, ety)
             it.assign(gen.target, SV(x, ety))
             for c in gen.ifs:
@@ -473,7 +479,7 @@ class Loops:
             it.pc.append(rng0)
 
             def elem():
-                if ety and not ety.startswith('tuple|'):
+                if ety:
                     self.world.element_kind(it, at(idx), ety)
                 it.assign(gen.target, SV(at(idx), ety))
                 guard = z3.BoolVal(True)
@@ -604,15 +610,17 @@ class Loops:
 
     def check_inv(self, it, spec, when, extra_env, label):
         extra_env = dict(it.env, **extra_env)
+        if getattr(it, 'entry_old', None) is not None:
+            extra_env['old!heap'] = it.entry_old
         for nme, text in spec['invariant'].items():
-            v = self.world.eval_spec(it, text, extra_env)
-            it.oblige(f'{label}/inv.{nme}/{when}', vals.truthy(v.t), kind='loop-invariant')
+            it.oblige(f'{label}/inv.{nme}/{when}', self.world.clause(it, text, extra_env), kind='loop-invariant')
 
     def assume_inv(self, it, spec, extra_env):
         extra_env = dict(it.env, **extra_env)
+        if getattr(it, 'entry_old', None) is not None:
+            extra_env['old!heap'] = it.entry_old
         for nme, text in spec['invariant'].items():
-            v = self.world.eval_spec(it, text, extra_env)
-            it.assume(vals.truthy(v.t))
+            it.assume(self.world.clause(it, text, extra_env, None, 'assume'))
 
     def invariant_loop(self, it, s, spec, seq, ety):
         label = spec['label']
@@ -627,6 +635,7 @@ class Loops:
             it.assume(z3.And(0 <= i, i < z3.Length(seq)))
             env = {'i__': SV(V.IntV(i)), 'seq__': seqv}
             self.assume_inv(it, spec, env)
+            self.world.element_kind(it, seq[i], ety)
             it.assign(s.target, SV(seq[i], ety))
             heap_before = dict(it.heap)
             try:
